@@ -30,9 +30,11 @@ ASSUMPTIONS = [
 REQUIRED = {"line.selects_entity_scenarios": {"quick": 8000, "thorough": 500000},
             "multi.union_of_selections": {"quick": 1500, "thorough": 80000},
             "files.per_file_selection": {"quick": 250, "thorough": 12000}, "listfile.same_as_direct": {"quick": 100, "thorough": 5000},
+            "listfile.mixed_with_direct_locations": {"quick": 100, "thorough": 5000},
             "locparser.roundtrip": {"quick": 500, "thorough": 20000}, "name.selects_matching": {"quick": 150, "thorough": 6000},
             "setup_teardown.never_skipped": {"quick": 40, "thorough": 2000}}
-REQUIRED_SEEN = {"entity_kind_addressed": ["feature", "rule", "outline", "row", "scenario", "line0", "other_line", "beyond_end"]}
+REQUIRED_SEEN = {"entity_kind_addressed": ["feature", "rule", "outline", "row", "scenario", "line0", "other_line", "beyond_end"],
+                 "argument_list_shape": ["DL", "LD", "LL", "DLD"]}
 EXHAUSTIVE = True
 EXHAUSTIVE_SCOPE = "every line number 0..last+2 of every generated document"
 NSHARDS = {"quick": 16, "thorough": 16}
@@ -278,6 +280,33 @@ def run(spec, mon):
                                       [(os.path.normpath(l.filename), l.line) for l in locs2], lambda: dict(listfile=rel))
                         except Exception as ex:
                             mon.check("listfile.same_as_direct", False, lambda: dict(listfile=rel, error=repr(ex)))
+                    # ---- list files MIXED with direct locations on one command line (any position, also two list files) ----
+                    if len(texts) >= 2 and rng.random() < 0.6:
+                        i = rng.randint(0, len(texts) - 1)
+                        j = rng.randint(i + 1, len(texts))
+                        segs = [("direct", texts[:i]), ("list", texts[i:j]),
+                                (rng.choice(["direct", "list"]), texts[j:])]
+                        argv, shape = [], []
+                        for n, (kind, part) in enumerate(segs):
+                            if not part:
+                                continue
+                            if kind == "direct":
+                                argv.extend(part)
+                                shape.append("D")
+                            else:
+                                listname = rng.choice(["part%d.txt" % n, "features/part%d.txt" % n])
+                                with open(listname, "w", encoding="utf-8") as fh:
+                                    fh.write("\n".join(os.path.relpath(x, os.path.dirname(listname) or ".") for x in part) + "\n")
+                                argv.append("@" + listname)
+                                shape.append("L")
+                        mon.seen("argument_list_shape", "".join(shape))
+                        try:
+                            locs3 = collect_feature_locations(argv)
+                            got3 = [selected_ids(f) for f in parse_features(locs3)]
+                            mon.check("listfile.mixed_with_direct_locations", got3 == want,
+                                      lambda: dict(arguments=argv, shape="".join(shape), locations=texts, got=got3, want=want))
+                        except Exception as ex:
+                            mon.check("listfile.mixed_with_direct_locations", False, lambda: dict(arguments=argv, error=repr(ex)))
             # ---- FileLocationParser ------------------------------------------------------------------------
             for _ in range(40):
                 path = rng.choice(["features/a.feature", "a b/c d.feature", "C:/x/y.feature", "ünï/ß.feature", "x.feature", "dir.with.dots/f.feature", "a:b.feature"])
